@@ -1254,9 +1254,97 @@ fn update_boxed_flatten(rng: &mut Rng, st: &mut Stats) {
     }
 }
 
+// ------------------------------------------------------------------ optional flattened structs of one, one (flag) and two arguments
+
+#[derive(Args, Clone, Debug, PartialEq)]
+pub struct OneOpt {
+    #[arg(long)]
+    level: Option<u32>,
+}
+#[derive(Args, Clone, Debug, PartialEq)]
+pub struct OneFlag {
+    #[arg(long)]
+    fast: bool,
+}
+#[derive(Args, Clone, Debug, PartialEq)]
+pub struct TwoOpts {
+    #[arg(long)]
+    a: Option<u32>,
+    #[arg(long)]
+    b: Option<String>,
+}
+#[derive(Parser, Clone, Debug, PartialEq)]
+#[command(name = "of")]
+pub struct OF {
+    #[arg(long)]
+    top: Option<u32>,
+    #[command(flatten)]
+    one: Option<OneOpt>,
+    #[command(flatten)]
+    flag: Option<OneFlag>,
+    #[command(flatten)]
+    two: Option<TwoOpts>,
+}
+
+/// `Option<S>` of a flattened struct is Some exactly when one of S's arguments is on the line
+fn optional_flatten(rng: &mut Rng, st: &mut Stats) {
+    st.count("type.OF");
+    let mut argv = vec!["prog".to_string()];
+    let mut want = OF { top: None, one: None, flag: None, two: None };
+    if rng.coin() {
+        let v = rng.below(1000) as u32;
+        argv.push(format!("--top={}", v));
+        want.top = Some(v);
+    }
+    if rng.coin() {
+        let v = rng.below(1000) as u32;
+        argv.push(format!("--level={}", v));
+        want.one = Some(OneOpt { level: Some(v) });
+        st.count("optional-flatten.single-option-present");
+    }
+    if rng.coin() {
+        argv.push("--fast".into());
+        want.flag = Some(OneFlag { fast: true });
+        st.count("optional-flatten.single-flag-present");
+    }
+    let (na, nb) = (rng.coin(), rng.coin());
+    if na || nb {
+        let mut t = TwoOpts { a: None, b: None };
+        if na {
+            let v = rng.below(1000) as u32;
+            argv.push(format!("--a={}", v));
+            t.a = Some(v);
+        }
+        if nb {
+            let v = word(rng);
+            argv.push(format!("--b={}", v));
+            t.b = Some(v);
+        }
+        want.two = Some(t);
+    }
+    // (the order of the tokens on the line does not matter)
+    let head = argv.remove(0);
+    rng.shuffle(&mut argv);
+    argv.insert(0, head);
+    st.eval();
+    st.nontrivial(mix(hash_str("OF"), hash_str(&format!("{:?}", argv))));
+    match catch(|| OF::try_parse_from(argv.clone())) {
+        Err(p) => st.violation(format!("panic:parse@{}", p.loc), format!("{} | OF argv={:?}", p.msg, argv)),
+        Ok(Err(e)) => st.violation("c15:optional-flatten:rejected", format!("OF: {:?} rejected: {:?}", argv, e.kind())),
+        Ok(Ok(v)) => {
+            st.count("optional-flatten.ok");
+            if v != want {
+                let which = if v.one != want.one || v.flag != want.flag { "single-argument-struct" } else { "other" };
+                st.violation(format!("c15:optional-flatten:wrong-value:{}", which), format!("OF: {:?} parsed as {:?}, expected {:?}", argv, v, want));
+            }
+        }
+    }
+}
+
 pub fn case(seed: u64, st: &mut Stats) {
     let mut rng = Rng::new(seed);
-    match rng.below(13) {
+    match rng.below(14) {
+        13 => optional_flatten(&mut rng, st),
         12 => update_boxed_flatten(&mut rng, st),
         11 => update_flattened_enums(&mut rng, st),
         10 => check::<N>(&mut rng, st),
